@@ -36,6 +36,24 @@ from myst_parser.parsers.mdit import create_md_parser  # noqa: E402
 _SET = None
 
 
+def _register_titled():
+    """harness-side stand-in for Sphinx' `only`: a directive that parses its body with match_titles=True"""
+    from docutils.parsers.rst import Directive, directives
+
+    if "mcx-titled" in directives._directives:
+        return
+
+    class Titled(Directive):
+        has_content = True
+
+        def run(self):
+            node = nodes.container(classes=["mcx-titled"])
+            self.state.nested_parse(self.content, self.content_offset, node, match_titles=True)
+            return [node]
+
+    directives.register_directive("mcx-titled", Titled)
+
+
 def render(text: str, source: str = "/src/index.md", cfg=None):
     global _SET
     if _SET is None:
@@ -47,7 +65,8 @@ def render(text: str, source: str = "/src/index.md", cfg=None):
     st.warning_stream = ws
     st.file_insertion_enabled = True
     doc = new_document(source, st)
-    md = create_md_parser(cfg or MdParserConfig(), DocutilsRenderer)
+    _register_titled()
+    md = create_md_parser(cfg or MdParserConfig(enable_extensions=["colon_fence"]), DocutilsRenderer)
     md.options["document"] = doc
     md.render(text)
     return doc, ws.getvalue(), md.renderer
@@ -216,6 +235,10 @@ class Doc:
             lvl = int(sym[1])
             self.rubrics.append((f"M{i}", lvl))
             self.lines += ["::::{tip}", ":::{note}", "> " + "#" * lvl + f" M{i}", ":::", "::::", ""]
+        elif kind == "D":  # a plain ::: div directly in the body of a match_titles directive: the div is a container, the heading a rubric
+            lvl = int(sym[1])
+            self.rubrics.append((f"D{i}", lvl))
+            self.lines += ["::::{mcx-titled}", ":::", "#" * lvl + f" D{i}", "div text", ":::", "::::", ""]
         elif kind in "TS":  # topic / sidebar: Structural nodes that are not sections
             lvl = int(sym[1])
             self.rubrics.append((f"{kind}{i}", lvl))
@@ -326,7 +349,7 @@ class TitleHeaderSystem(_Base):
         return Obs(digest=(tuple(d.model.sections), tuple(d.model.warn_lines)), nontrivial=len(lv) >= 1, violations=viol[:3])
 
 
-MIXED = ["H1", "H2", "H3", "H4", "H6", "E1", "E2", "Z2", "P", "Q1", "Q3", "L1", "L2", "N1", "N3", "O2", "M2", "T2", "S1", "I0", "I1", "I2", "J1", "J2"]
+MIXED = ["H1", "H2", "H3", "H4", "H6", "E1", "E2", "Z2", "P", "Q1", "Q3", "L1", "L2", "N1", "N3", "O2", "M2", "T2", "S1", "D3", "I0", "I1", "I2", "J1", "J2"]
 
 
 class MixedSystem(_Base):
@@ -356,15 +379,15 @@ class MixedSystem(_Base):
         d, doc, stream, r = self.execute(seq)
         viol = compare(d, doc, stream, r)
         # the surrounding structure is unaffected by nested headings: same sections as the sequence without them
-        if any(s[0] in "QLNMTS" for s in seq):
-            d2, doc2, stream2, r2 = self.execute([s for s in seq if s[0] not in "QLNMTS"])
+        if any(s[0] in "QLNMTSD" for s in seq):
+            d2, doc2, stream2, r2 = self.execute([s for s in seq if s[0] not in "QLNMTSD"])
             a = [(t, p) for t, p, _ in observe(doc)[2]]
             b = [(t, p) for t, p, _ in observe(doc2)[2]]
             # titles carry the position index, compare shapes only
             if [p for _, p in a] != [p for _, p in b]:
                 viol.append(violation("nested-affects-structure", {"clause": "nested-affects-structure"},
                                       f"section structure {a} differs from {b} obtained without the nested headings", text=d.text()))
-        nt = any(s[0] in "QLNMTSIJ" for s in seq) and any(s[0] == "H" for s in seq)
+        nt = any(s[0] in "QLNMTSDIJ" for s in seq) and any(s[0] == "H" for s in seq)
         return Obs(digest=([(t, p) for t, p, _ in observe(doc)[2]], stream.count("[myst.header]"), d.rubrics),
                    nontrivial=nt, violations=viol[:3], canon=(tuple(sorted(r._level_to_section)), seq[-1] if seq else ""))
 
